@@ -218,15 +218,10 @@ func (w ConsoleWriter) writeFields(evt map[string]interface{}, buf *bytes.Buffer
 	// Move the "error" field to the front
 	ei := sort.Search(len(fields), func(i int) bool { return fields[i] >= ErrorFieldName })
 	if ei < len(fields) && fields[ei] == ErrorFieldName {
-		fields[ei] = ""
-		fields = append([]string{ErrorFieldName}, fields...)
 		var xfields = make([]string, 0, len(fields))
-		for _, field := range fields {
-			if field == "" { // Skip empty fields
-				continue
-			}
-			xfields = append(xfields, field)
-		}
+		xfields = append(xfields, ErrorFieldName)
+		xfields = append(xfields, fields[:ei]...)
+		xfields = append(xfields, fields[ei+1:]...)
 		fields = xfields
 	}
 
